@@ -22,15 +22,16 @@ import (
 // C09: TCP, TCP+SNI and dynamic TCP tunnels are transparent byte streams.
 
 type c09Scn struct {
-	kind       string // tcp | sni | dynamic
-	proxyProto bool
-	segs       [][]byte
-	clientEnd  string // open | half | close
-	replyAfter int    // -1: after EOF from the client; otherwise after that many bytes arrived
-	reply      [][]byte
-	upEnd      string // close | half | wait
-	eofData    bool   // the connections deliver EOF together with their last bytes (as crypto/tls does)
-	serverFirst bool  // the client waits for the upstream's greeting before it sends anything
+	kind        string // tcp | sni | dynamic
+	proxyProto  bool
+	segs        [][]byte
+	clientEnd   string // open | half | close
+	replyAfter  int    // -1: after EOF from the client; otherwise after that many bytes arrived
+	reply       [][]byte
+	upEnd       string // close | half | wait
+	eofData     bool   // the connections deliver EOF together with their last bytes (as crypto/tls does)
+	serverFirst bool   // the client waits for the upstream's greeting before it sends anything
+	bigHello    bool   // the ClientHello is padded to a 4 kB / 16 kB record
 }
 
 func (s c09Scn) String() string {
@@ -47,6 +48,9 @@ func (s c09Scn) String() string {
 	}
 	if s.serverFirst {
 		e += " client-waits-for-the-greeting"
+	}
+	if s.bigHello {
+		e += " padded-hello"
 	}
 	return fmt.Sprintf("%s pxy=%v client-segments=[%s] client-then=%s reply-after=%d reply-segments=[%s] upstream-then=%s%s", s.kind, s.proxyProto, strings.Join(sl, ","), s.clientEnd, s.replyAfter, strings.Join(rl, ","), s.upEnd, e)
 }
@@ -73,17 +77,17 @@ func c09Target(kind string, pxy bool) *route.Target {
 }
 
 type c09Result struct {
-	toUpstream   []byte // what the proxy wrote towards the upstream
-	toClient     []byte // what the proxy wrote towards the client
-	clientSent   []byte
-	clientGot    []byte
-	upGot        []byte
-	upSentAll    bool
+	toUpstream    []byte // what the proxy wrote towards the upstream
+	toClient      []byte // what the proxy wrote towards the client
+	clientSent    []byte
+	clientGot     []byte
+	upGot         []byte
+	upSentAll     bool
 	clientSentAll bool
-	upSawEOF     bool // the upstream read the end of the client's stream (before any close of its own)
-	clientSawEOF bool
-	log          []string
-	dials        int
+	upSawEOF      bool // the upstream read the end of the client's stream (before any close of its own)
+	clientSawEOF  bool
+	log           []string
+	dials         int
 }
 
 func c09Body(s c09Scn, res *c09Result) func(x *vsched.X) {
@@ -306,7 +310,7 @@ func c09Scenarios(thorough bool) []c09Scn {
 								if pxy && ra > 0 {
 									n += len("PROXY TCP4 192.0.2.7 10.0.0.1 51000 1234\r\n")
 								}
-								out = append(out, c09Scn{kind, pxy, sp, ce, n, rp, ue, false, false})
+								out = append(out, c09Scn{kind, pxy, sp, ce, n, rp, ue, false, false, false})
 							}
 						}
 					}
@@ -344,12 +348,22 @@ func c09Scenarios(thorough bool) []c09Scn {
 	h := c09Hello
 	hp := append(append([]byte{}, h...), payload...)
 	sniSplits := [][][]byte{
-		{h, payload},                       // hello and payload in separate segments
-		{hp},                               // everything in one segment
-		{h[:5], hp[5:]},                    // inside the 9-byte peek
-		{h[:9], h[9:], payload},            // exactly the peek, then the rest
+		{h, payload},                             // hello and payload in separate segments
+		{hp},                                     // everything in one segment
+		{h[:5], hp[5:]},                          // inside the 9-byte peek
+		{h[:9], h[9:], payload},                  // exactly the peek, then the rest
 		{h[:40], hp[40 : len(h)+3], payload[3:]}, // the hello ends inside a segment that carries payload
-		{hp[:len(h)+1], payload[1:]},       // one payload byte rides with the hello
+		{hp[:len(h)+1], payload[1:]},             // one payload byte rides with the hello
+	}
+	// a ClientHello that fills a 4 kB / 16 kB record (padding extension), followed by payload
+	for _, bh := range c10Reassemble(h) {
+		if len(bh.raw) < 4000 {
+			continue
+		}
+		bp := append(append([]byte{}, bh.raw...), payload...)
+		for _, sp := range [][][]byte{{bh.raw, payload}, {bp}, {bp[:1400], bp[1400:2800], bp[2800:]}} {
+			out = append(out, c09Scn{kind: "sni", segs: sp, clientEnd: "half", replyAfter: len(bp), reply: [][]byte{reply}, upEnd: "close", bigHello: true})
+		}
 	}
 	for si, sp := range sniSplits {
 		for _, ce := range []string{"open", "half", "close"} {
@@ -361,11 +375,11 @@ func c09Scenarios(thorough bool) []c09Scn {
 					if !thorough && si%2 == 1 && ce == "close" {
 						continue
 					}
-					out = append(out, c09Scn{"sni", false, sp, ce, ra, [][]byte{reply}, ue, false, false})
+					out = append(out, c09Scn{"sni", false, sp, ce, ra, [][]byte{reply}, ue, false, false, false})
 				}
 			}
 		}
-		out = append(out, c09Scn{"sni", true, sp, "half", len(hp) + len("PROXY TCP4 192.0.2.7 10.0.0.1 51000 1234\r\n"), [][]byte{reply}, "close", false, false})
+		out = append(out, c09Scn{"sni", true, sp, "half", len(hp) + len("PROXY TCP4 192.0.2.7 10.0.0.1 51000 1234\r\n"), [][]byte{reply}, "close", false, false, false})
 	}
 	return out
 }
@@ -419,7 +433,7 @@ func TestVerifC09Tunnels(t *testing.T) {
 		// quick: every SNI scenario that splits inside / after the hello, and every third of the rest
 		var sub []c09Scn
 		for i, s := range scs {
-			if i%3 == 0 || s.eofData || s.serverFirst || len(s.segs) == 0 || (s.kind == "sni" && s.clientEnd != "close" && s.upEnd == "close") {
+			if i%3 == 0 || s.eofData || s.serverFirst || s.bigHello || len(s.segs) == 0 || (s.kind == "sni" && s.clientEnd != "close" && s.upEnd == "close") {
 				sub = append(sub, s)
 			}
 		}
